@@ -9,7 +9,7 @@ from ptstat import AnalysisError
 from ptstat.lazy import LazyWorld, Explorer, GROUP_INIT, _short
 from ptstat.symval import SymObj, PropertyVal, Closure, SymRaise
 from ptstat.world import World
-from .common import world, fsite, raises, _s, callees_in_common
+from .common import world, fsite, raises, _s, callees_in_common, eq
 
 EXPLANATION = (
     "The typestate machine of C09 is extended with private tables: for each lazy group every interleaving of "
@@ -243,6 +243,7 @@ def run(ctx):
         _c16.COMPOUND_STRINGS.clear()
         ctx.check(bool(tabs16) and all(tb is w16.table for tb in tabs16), "R4", f"nsf.{fname}('<string>', table=T): the string is parsed with T",
                   f"parsed with {[getattr(tb, 'name', tb) for tb in tabs16]}" + (f" (raises {rr16})" if rr16 else ""), fsite(ctx, f"nsf.{fname}"))
+    _contrast_sequence(ctx)
     # the sequence prefix route
     f = ctx.src.func("formulas.formula")
     seq_calls = [n for n in ast.walk(f.node) if isinstance(n, ast.Call) and ast.unparse(n.func).endswith("Sequence")]
@@ -251,7 +252,7 @@ def run(ctx):
         ctx.check(passes, "R4", "formula(): the 'aa:'/'dna:'/'rna:' prefix route passes table= on",
                   "fasta.Sequence(...) is built without the table argument: formula('aa:A', table=T) contains atoms of the public table",
                   f"{ctx.src.where('formulas', n)} formulas.formula")
-    ctx.floor("R4", 19)
+    ctx.floor("R4", 29)
     # building one table leaves the module-level element data as it was: the next table gets the same elements
     wa = world(ctx)
     Ia = wa.I
@@ -264,3 +265,98 @@ def run(ctx):
                 diff.append((sym_, k_, a_.get(k_), b_.get(k_)))
     ctx.check(not diff, "R3", "a table created later has the same element data (symbol, name, oxidation states) as one created earlier",
               f"{diff[:3]}", fsite(ctx, "core.PeriodicTable.__init__"))
+
+
+def _clone_table(I, T, suffix):
+    """a second table: a copy of every object reachable from table T whose neutron data are different numbers (the symbols
+    of the scattering lengths and cross sections are renamed).  Returns {id of the original: copy}."""
+    from ptstat.symval import SymObj
+    memo = {}
+    renamed = {}
+
+    def sym(x):
+        if x not in renamed:
+            renamed[x] = sp.Symbol(x.name + suffix, **{k: v for k, v in x.assumptions0.items() if k in ("real", "positive", "nonnegative")}) \
+                if x.name.split("_")[0] in ("br", "bi", "s", "coh", "inc", "abs") else x
+        return renamed[x]
+
+    def cp(v):
+        if isinstance(v, SymObj):
+            if v.id not in memo:
+                o = memo[v.id] = I.new_obj(v.name + suffix, v.cls, None, v.open_attrs, v.sym_kw)
+                I.heap[o.id] = {k: cp(x) for k, x in list(I.heap[v.id].items())}
+            return memo[v.id]
+        if isinstance(v, dict):
+            return {cp(k): cp(x) for k, x in v.items()}
+        if isinstance(v, list):
+            return [cp(x) for x in v]
+        if type(v) is tuple:
+            return tuple(cp(x) for x in v)
+        if isinstance(v, sp.Basic) and v.free_symbols:
+            return v.xreplace({x: sym(x) for x in v.free_symbols})
+        return v
+    cp(T)
+    return memo
+
+
+def _contrast_sequence(ctx):
+    """Two tables with different neutron data, the same compound and the same beam, one after the other: what each table's
+    contrast calculation returns is what it returns when it is the only one ever run in the process (nothing computed from the
+    atoms of one table may be handed to the other)."""
+    from . import C16 as _c16
+    results = {}
+    for order in ("second table alone", "first table, then second table", "first table alone", "second table, then first table"):
+        w, _seen = _c16.setup(ctx)
+        I, A = w.I, w.atoms
+        memo = _clone_table(I, w.table, "_T2")
+        T2 = memo[w.table.id]
+        fm = I.global_name("formulas", "formula")
+        q = sp.symbols("q1:5", positive=True)
+        rho, d = sp.symbols("rho frac_d", positive=True)
+        tags = ("H1", "H", "DT", "element2")
+        comp1 = {A[t]: q[i] for i, t in enumerate(tags)}
+        comp2 = {memo[A[t].id]: q[i] for i, t in enumerate(tags)}
+        out = {}
+        for fname, extra in (("D2O_sld", {"volume_fraction": sp.Symbol("frac_vf", positive=True), "D2O_fraction": d}), ("D2O_match", {})):
+            fn = I.global_name("nsf", fname)
+            call1 = lambda: I.call(fn, [I.call(fm, [dict(comp1)], {"density": rho})], dict(extra, wavelength=sp.Integer(6)))   # default table
+            call2 = lambda: I.call(fn, [I.call(fm, [dict(comp2)], {"density": rho})], dict(extra, wavelength=sp.Integer(6), table=T2))
+            seq = {"second table alone": (call2,), "first table, then second table": (call1, call2),
+                   "first table alone": (call1,), "second table, then first table": (call2, call1)}[order]
+            rr = raises(lambda: [c() for c in seq[:-1]])
+            if rr:
+                ctx.fail("R4", f"nsf.{fname}: {order}", f"raises {rr}", fsite(ctx, f"nsf.{fname}"))
+                continue
+            try:
+                out[fname] = seq[-1]()
+            except SymRaise as e:
+                out[fname] = e
+        results[order] = out
+    for alone, after in (("second table alone", "first table, then second table"), ("first table alone", "second table, then first table")):
+        for fname in ("D2O_sld", "D2O_match"):
+            a_, b_ = results[alone].get(fname), results[after].get(fname)
+            if a_ is None or b_ is None:
+                continue
+            site = fsite(ctx, f"nsf.{fname}")
+            what = f"nsf.{fname} at one beam: {after} = {alone}"
+            if isinstance(a_, SymRaise) or isinstance(b_, SymRaise):
+                ctx.check(isinstance(a_, SymRaise) and isinstance(b_, SymRaise) and a_.exc == b_.exc, "R4", what,
+                          f"{_sh(a_)} alone, {_sh(b_)} in sequence", site)
+                continue
+            fa, fb = _flat(a_), _flat(b_)
+            if len(fa) != len(fb):
+                ctx.fail("R4", what, f"returns {_sh(fb)} in sequence, {_sh(fa)} alone", site)
+                continue
+            for k_, (x, y) in enumerate(zip(fa, fb)):
+                if not eq(ctx, "R4", f"{what} (value {k_})", y, x, site, what="the value returned after the other table used the same beam"):
+                    break
+
+
+def _flat(v):
+    if isinstance(v, (tuple, list)):
+        return [y for x in v for y in _flat(x)]
+    return [v]
+
+
+def _sh(v):
+    return str(v)[:160]
